@@ -1,10 +1,135 @@
 import PewDriver.Util
+import PewModel.Cli
 open Lean
 namespace PewDriver.C20
-open PewDriver
+open PewDriver Pew.Cli
 
-def handle (op : String) (_req : Json) : R Json := do
+def mkGrid (h w : Nat) (data : Array Tok) : Grid Tok :=
+  { h := h, w := w, get := fun i j => data.getD (i * w + j) 0 }
+
+def parsePath (j : Json) : R Path := do
+  pure { dir := ← getStr j "dir", stem := ← getStr j "stem", suffix := ← getStr j "suffix" }
+
+def parseCfg (j : Json) : R Cfg := do
+  match ← asList asInt j with
+  | [a, b, c] => pure { spotsize := a, speed := b, scantime := c }
+  | _ => throw "config: three tokens expected"
+
+def parseParams (j : Json) : R Params := do
+  match ← asList (asOpt asInt) j with
+  | [a, b, c] => pure { spotsize := a, speed := b, scantime := c }
+  | _ => throw "params: three optional tokens expected"
+
+/-- per element: name and row-major tokens -/
+def parseFields (h w : Nat) (j : Json) : R (List (String × Array Tok)) := do
+  let fs ← asList (fun f => do
+    let nm ← getStr f "name"
+    let data ← getList asInt f "data"
+    if data.length ≠ h * w then throw s!"field {nm}: data/shape mismatch"
+    pure (nm, data.toArray)) j
+  pure fs
+
+def pxOf (w : Nat) (fs : List (String × Array Tok)) : Nat → Nat → Px := fun i j n =>
+  match fs.lookup n with
+  | some a => a.getD (i * w + j) 0
+  | none => 0
+
+structure InputX where
+  input : Input
+  /-- the library filter applied to every field of this input (only for the filter command) -/
+  filtered : Option (List (String × Array Tok))
+
+def parseInput (defaults : Cfg) (j : Json) : R InputX := do
+  let path ← fld j "path" >>= parsePath
+  let present ← getBool j "exists"
+  let h ← getNat j "h"
+  let w ← getNat j "w"
+  let fs ← fld j "fields" >>= parseFields h w
+  -- `load`: an .npz carries its own config, every other format gets Config() + loader parameters
+  let config ← match ← (fld j "config" >>= asOpt parseCfg) with
+    | some c => pure c
+    | none => do
+      let p ← fld j "params" >>= parseParams
+      pure (configOf defaults p)
+  let filtered ← fld j "filtered" >>= asOpt (parseFields h w)
+  pure { input := { path := path, present := present,
+                    laser := { elements := fs.map (·.1), data := { h := h, w := w, get := pxOf w fs }, config := config } },
+         filtered := filtered }
+
+def parseOrient (s : String) : R Orient :=
+  match s with
+  | "vertical" => pure .vertical
+  | "horizontal" => pure .horizontal
+  | _ => throw s!"bad orientation {s}"
+
+def jPath (p : Path) : Json := jStr p.full
+
+def jGrid (g : Grid Tok) : Json :=
+  jList (fun i => jList (fun j => jInt (g.get i j)) (List.range g.w)) (List.range g.h)
+
+def jFile (f : File) : Json :=
+  match f.content with
+  | .npz l =>
+    jObj [("path", jPath f.path), ("kind", jStr "npz"), ("elements", jList jStr l.elements),
+          ("shape", jList jNat [l.data.h, l.data.w]),
+          ("data", jList (fun e => jGrid (l.field e)) l.elements),
+          ("config", jList jInt [l.config.spotsize, l.config.speed, l.config.scantime])]
+  | .csv g =>
+    jObj [("path", jPath f.path), ("kind", jStr "csv"), ("shape", jList jNat [g.h, g.w]), ("data", jGrid g)]
+  | .vtk => jObj [("path", jPath f.path), ("kind", jStr "vtk")]
+
+def jResult (r : Result) : Json :=
+  jObj [("status", jStr (if r.status = .ok then "ok" else "error")), ("files", jList jFile r.files)]
+
+def handle (op : String) (req : Json) : R Json := do
   match op with
+  | "c20.run" =>
+    let defaults ← fld req "defaults" >>= parseCfg
+    let xs ← getList (parseInput defaults) req "inputs"
+    let format ← getStr req "format"
+    let output ← fld req "output" >>= asOpt parsePath
+    let outIsDir ← getBool req "output_is_dir"
+    let isDir : Path → Bool := fun p => outIsDir && (some p == output)
+    let cmdName ← getStr req "cmd"
+    let cmd : Cmd ← match cmdName with
+      | "convert" => do
+        let cfg ← fld req "config" >>= asOpt parseCfg
+        let els ← fld req "elements" >>= asOpt (asList asStr)
+        pure (Cmd.convert cfg els)
+      | "filter" => do
+        let sel ← fld req "elements" >>= asOpt (asList asStr)
+        let tables := xs.toArray.map (·.filtered)
+        let f : Nat → String → Grid Tok → Grid Tok := fun k n g =>
+          match tables[k]? with
+          | some (some t) =>
+            match t.lookup n with
+            | some a => mkGrid g.h g.w a
+            | none => g
+          | _ => g
+        pure (Cmd.filter f sel)
+      | "stack" => do
+        let o ← getStr req "orientation" >>= parseOrient
+        let pad ← getInt req "pad"
+        pure (Cmd.stack o pad)
+      | _ => throw s!"bad cmd {cmdName}"
+    let a : Args := { cmd := cmd, inputs := xs.map (·.input), format := format, output := output, isDir := isDir }
+    pure (jObj [("model", jResult (run a)), ("spec", jResult (specRun a))])
+  | "c20.stack" =>
+    -- bare stacking of single-field grids, also with the pre-802513a padding
+    let o ← getStr req "orientation" >>= parseOrient
+    let pad ← getInt req "pad"
+    let gs ← getList (fun g => do
+      let h ← getNat g "h"
+      let w ← getNat g "w"
+      let data ← getList asInt g "data"
+      if data.length ≠ h * w then throw "data/shape mismatch"
+      pure (mkGrid h w data.toArray)) req "grids"
+    let enc : Option (Grid Tok) → Json := fun r =>
+      match r with
+      | some g => jObj [("shape", jList jNat [g.h, g.w]), ("data", jGrid g)]
+      | none => Json.null
+    pure (jObj [("model", enc (stack o pad gs)), ("old", enc (stackOld o pad gs)),
+                ("spec", enc (if gs.isEmpty then none else some (stackSpec o pad gs)))])
   | _ => throw s!"unknown op {op}"
 
 end PewDriver.C20
